@@ -363,6 +363,23 @@ func F5(yield func(Program)) {
 			yield(prog("F5multi", names, append(decl, MultiSet(names, List(items...)), Expr(List(idsOf(names)...)))...))
 		}
 	}
+	// unpacking from the other containers, right-sized and not, at the top level, in a loop body
+	// (the statement has to be stack-neutral whether it succeeds or fails under try) and in a function
+	others := []*N{Str(""), Str("x"), Str("xy"), Str("xyz"), Str("h\u00e9!z"), Map(), Map(Str("k"), Int(1)), Map(Str("b"), Int(1), Str("a"), Int(2)), Map(Str("c"), Int(1), Str("b"), Int(2), Str("a"), Int(3)), Int(2), Nil(), Float(1.5)}
+	for _, o := range others {
+		for n := 2; n <= 3; n++ {
+			names := []string{"v0", "v1", "v2"}[:n]
+			yield(prog("F5multi", names, MultiVar(names, Clone(o)), Expr(List(idsOf(names)...))))
+			var decl []*N
+			for _, nm := range names {
+				decl = append(decl, Var(nm, Int(0)))
+			}
+			yield(prog("F5multi", names, append(decl, MultiSet(names, Clone(o)), Expr(List(idsOf(names)...)))...))
+			body := Expr(callE("try", Func("", nil, MultiVar(names, Clone(o)), Return(List(idsOf(names)...))), Int(-1)))
+			yield(prog("F5multi", nil, ForRange("i", Int(3), emitE(body.A[0]))))
+			yield(prog("F5multi", nil, FuncDecl("f", P("c"), MultiVar(names, Id("c")), Return(List(idsOf(names)...))), Expr(callE("try", Func("", nil, Return(callE("f", Clone(o)))), Int(-1))), Expr(callE("try", Func("", nil, Return(callE("f", Clone(o)))), Int(-2)))))
+		}
+	}
 	yield(prog("F5multi", []string{"a", "b"}, Var("a", Int(1)), Var("b", Int(2)), MultiSet([]string{"a", "b"}, List(Id("b"), Id("a"))), Expr(List(Id("a"), Id("b")))))
 	yield(prog("F5multi", []string{"a", "b", "c"}, Var("a", Int(1)), Var("b", Int(2)), Var("c", Int(3)), MultiSet([]string{"a", "b", "c"}, List(Id("c"), Id("a"), Id("b"))), Expr(List(Id("a"), Id("b"), Id("c")))))
 	// in / not in over containers
